@@ -1,9 +1,10 @@
 SPECIFICATION MCSpec
 CONSTANTS
   Writers = {"w1", "w2", "w3"}
-  MaxTx = 2
-  MaxWrites = 1
+  MaxTx = 1
+  MaxWrites = 2
   Keys = {"k1", "k2"}
+  MaxReads = 1
   CancelBudget = 1000
   ExportCuts = TRUE
 INVARIANTS
@@ -13,5 +14,6 @@ INVARIANTS
   NoTrace
   OwnSlot
   NeverBroken
+  FreeMeansEmpty
 VIEW NoHistView
 CHECK_DEADLOCK TRUE
